@@ -2,6 +2,8 @@ import JunoModel.Common.Proto
 import JunoModel.C01.Model
 import JunoModel.C01.ModelState
 import JunoModel.C01.ModelLegacy
+import JunoModel.C01.ModelStore
+import JunoModel.C01.ModelLazy
 /-!
 Line-protocol driver for the C01 models (`lake build c01drv`).
 
@@ -15,6 +17,14 @@ Requests (one per line, answers one line each):
   lput <id> <keyhex> <valhex>       Trie.Put(key, value)                           -> ok | err:put
   lhash <id>                        Trie.Hash() (rehashes dirty paths)             -> <term> | err:hash
   lreopen <id>                      drop the object, open a new one on the storage -> ok
+  bnew <id> <height> <ped|pos>      trie2 with node database, tracer and lazy resolution  -> ok
+  bput <id> <keyhex> <valhex>       Trie.Update                                     -> ok | err:update
+  bhash <id>                        Trie.Hash()                                     -> <term>
+  bget <id> <keyhex>                Trie.Get through unresolved nodes               -> <term> | err:get
+  bcommit <id>                      Trie.Commit(), write the node set, reopen       -> <rootterm> none | <rootterm> entry...
+        entries sorted by (path length, path): D:<len>:<path>:<isLeaf> | L:<len>:<path>:<value term> |
+        B:<len>:<path>:<hash term>:<left term>:<right term> | E:<len>:<path>:<hash term>:<child term>:<plen>:<p>
+  znew/zput/zhash/zreopen <id> ...  the restart model of ModelLazy.lean (unresolved nodes carry their subtree) -> ok | <term>
   snew <id> <purge 0|1>             fresh state model (purge = empty system contracts lose their leaf) -> ok
   sblock <id> <pre014 0|1> item...  State.Update + Commitment; items in application order:
         D:<class>:<casm> M:<class>:<casm> P:<addr>:<class> R:<addr>:<class> N:<addr>:<nonce>
@@ -35,10 +45,6 @@ partial def termStr : HTerm → String
   | .pos3 a b c => "T(" ++ termStr a ++ "," ++ termStr b ++ "," ++ termStr c ++ ")"
   | .add t n => "A(" ++ termStr t ++ "," ++ natToHex n ++ ")"
 
-/-- `FeltToPath(key, height)`: the low `height` bits, most significant first. -/
-def natToPath (height n : Nat) : Path :=
-  (List.range height).reverse.map (fun i => n.testBit i)
-
 structure T2 where
   height : Nat
   kind : HashKind
@@ -48,6 +54,21 @@ structure St where
   t2 : List (Nat × T2) := []
   states : List (Nat × (Bool × State.St)) := []
   legacy : List (Nat × Legacy.Trie) := []
+  lazyT : List (Nat × Trie2S.T) := []
+  lazyL : List (Nat × (Nat × HashKind × LNode)) := []
+
+def pathStr (p : Path) : String := toString p.length ++ ":" ++ natToHex (pathNat p)
+
+def setNodeStr (e : Path × Trie2S.SetNode) : String :=
+  match e.2 with
+  | .deleted l => "D:" ++ pathStr e.1 ++ ":" ++ (if l then "1" else "0")
+  | .leaf (.leaf v) => "L:" ++ pathStr e.1 ++ ":" ++ termStr v
+  | .nonLeaf h (.bin l r) => "B:" ++ pathStr e.1 ++ ":" ++ termStr h ++ ":" ++ termStr l ++ ":" ++ termStr r
+  | .nonLeaf h (.edge c p) => "E:" ++ pathStr e.1 ++ ":" ++ termStr h ++ ":" ++ termStr c ++ ":" ++ pathStr p
+  | _ => "X:" ++ pathStr e.1
+
+def sortSet (ns : Trie2S.NodeSet) : Trie2S.NodeSet :=
+  (ns.toArray.qsort (fun a b => a.1.length < b.1.length || (a.1.length == b.1.length && pathNat a.1 < pathNat b.1))).toList
 
 def parsePair (a b : String) : Option (Path × HTerm) := do
   let x ← hexToNat? a
@@ -154,6 +175,82 @@ def step (s : St) (line : String) : St × String :=
     | some id =>
       match s.legacy.find? (·.1 == id) with
       | some (_, t) => ({ s with legacy := (id, Legacy.reopen t) :: s.legacy.filter (·.1 != id) }, "ok")
+      | none => (s, "bad-op")
+    | none => (s, "bad-op")
+  | ["bnew", id, h, k] =>
+    match id.toNat?, h.toNat?, kindOf? k with
+    | some id, some h, some k =>
+      ({ s with lazyT := (id, Trie2S.openTrie h k []) :: s.lazyT.filter (·.1 != id) }, "ok")
+    | _, _, _ => (s, "bad-op")
+  | ["bput", id, key, val] =>
+    match id.toNat?, hexToNat? key, hexToNat? val with
+    | some id, some key, some val =>
+      match s.lazyT.find? (·.1 == id) with
+      | some (_, t) =>
+        if key ≥ 2 ^ t.height then (s, "err:key-too-big") else
+        match Trie2S.update t (natToPath t.height key) (.felt val) with
+        | some t' => ({ s with lazyT := (id, t') :: s.lazyT.filter (·.1 != id) }, "ok")
+        | none => (s, "err:update")
+      | none => (s, "bad-op")
+    | _, _, _ => (s, "bad-op")
+  | ["bhash", id] =>
+    match id.toNat? with
+    | some id =>
+      match s.lazyT.find? (·.1 == id) with
+      | some (_, t) =>
+        let r := Trie2S.hash t
+        ({ s with lazyT := (id, r.2) :: s.lazyT.filter (·.1 != id) }, termStr r.1)
+      | none => (s, "bad-op")
+    | none => (s, "bad-op")
+  | ["bget", id, key] =>
+    match id.toNat?, hexToNat? key with
+    | some id, some key =>
+      match s.lazyT.find? (·.1 == id) with
+      | some (_, t) =>
+        match Trie2S.get ⟨t.height, t.disk⟩ (2 * t.height + 4) t.root [] (natToPath t.height key) with
+        | some v => (s, termStr v)
+        | none => (s, "err:get")
+      | none => (s, "bad-op")
+    | _, _ => (s, "bad-op")
+  | ["bcommit", id] =>
+    match id.toNat? with
+    | some id =>
+      match s.lazyT.find? (·.1 == id) with
+      | some (_, t) =>
+        let (h, ns, t') := Trie2S.commitReopen t
+        let body := match ns with
+          | none => "none"
+          | some ns => " ".intercalate ((sortSet ns).map setNodeStr)
+        ({ s with lazyT := (id, t') :: s.lazyT.filter (·.1 != id) }, termStr h ++ " " ++ body)
+      | none => (s, "bad-op")
+    | none => (s, "bad-op")
+  | ["znew", id, h, k] =>
+    match id.toNat?, h.toNat?, kindOf? k with
+    | some id, some h, some k => ({ s with lazyL := (id, (h, k, .nil)) :: s.lazyL.filter (·.1 != id) }, "ok")
+    | _, _, _ => (s, "bad-op")
+  | ["zput", id, key, val] =>
+    match id.toNat?, hexToNat? key, hexToNat? val with
+    | some id, some key, some val =>
+      match s.lazyL.find? (·.1 == id) with
+      | some (_, (h, k, t)) =>
+        if key ≥ 2 ^ h then (s, "err:key-too-big") else
+        ({ s with lazyL := (id, (h, k, TrieL.update t (natToPath h key) (.felt val))) :: s.lazyL.filter (·.1 != id) }, "ok")
+      | none => (s, "bad-op")
+    | _, _, _ => (s, "bad-op")
+  | ["zhash", id] =>
+    match id.toNat? with
+    | some id =>
+      match s.lazyL.find? (·.1 == id) with
+      | some (_, (h, k, t)) =>
+        ({ s with lazyL := (id, (h, k, TrieL.hashRoot k t)) :: s.lazyL.filter (·.1 != id) }, termStr (TrieL.rootHash k t))
+      | none => (s, "bad-op")
+    | none => (s, "bad-op")
+  | ["zreopen", id] =>
+    match id.toNat? with
+    | some id =>
+      match s.lazyL.find? (·.1 == id) with
+      | some (_, (h, k, t)) =>
+        ({ s with lazyL := (id, (h, k, TrieL.reopen k (TrieL.hashRoot k t))) :: s.lazyL.filter (·.1 != id) }, "ok")
       | none => (s, "bad-op")
     | none => (s, "bad-op")
   | ["snew", id, purge] =>
